@@ -31,7 +31,9 @@ CondPos == <<
   <<"MatchText", <<>>, <<46,97>> \o EqV, TRUE>>,                                      \* w.a = :v      (head of a document path)
   <<"MatchText", <<>>, <<91,48,93>> \o EqV, TRUE>>,                                   \* w[0] = :v
   <<"ApplyText", <<83,69,84,32>>, <<46,97>> \o EqV, TRUE>>,                           \* SET w.a = :v
-  <<"ApplyText", <<82,69,77,79,86,69,32>>, <<91,48,93>>, FALSE>> >>                   \* REMOVE w[0]
+  <<"ApplyText", <<82,69,77,79,86,69,32>>, <<91,48,93>>, FALSE>>,                     \* REMOVE w[0]
+  <<"MatchText", <<97,32,61,32,58,118,32,79,82,32>>, EqV, TRUE>>,                     \* a = :v OR w = :v    (the left operand is true)
+  <<"MatchText", <<97,32,60,62,32,58,118,32,65,78,68,32>>, EqV, TRUE>> >>             \* a <> :v AND w = :v  (the left operand is false)
 Words == ReservedWords \cup { Lower(w) : w \in ReservedWords }
 Cases == { C(CondPos[i][1], CondPos[i][2] \o w \o CondPos[i][3], <<>>, IF CondPos[i][4] THEN VV ELSE <<>>) : i \in Positions, w \in Words }
   \* near misses: not reserved, must not be rejected on that account
